@@ -753,22 +753,13 @@ class Fetcher:
         then processes the results and stores them in the database.
         """
         # Make the API request for all titles in the batch
-        if title is None:
-            title_to_authors = api.get_contributors(self.titles_pending_contributor_lookup[api])
-        else:
-            title_to_authors = api.get_contributors([title])
+        titles = self.titles_pending_contributor_lookup[api] if title is None else [title]
+        title_to_authors = api.get_contributors(titles)
 
-        # Process the results for each title
+        # Process the results: the API answers under the title a redirect leads to
         authors_dict = {}
         title: str
-        for title in self.titles_pending_contributor_lookup[api]:
-            # Skip if the title is not in the results (e.g., if it was redirected)
-            if title not in title_to_authors:
-                continue
-
-            # Get the InspectAuthors object for this title
-            inspect_authors = title_to_authors[title]
-
+        for title, inspect_authors in title_to_authors.items():
             # Get the authors for this title
             authors = inspect_authors.get_authors()
 
@@ -1008,11 +999,10 @@ class Fetcher:
         _, partial = title.split(":", 1)
         local_title = f"{local_nsname}:{partial}"
 
-        # Add the title to the batch
-        self._add_to_titles_pending_contributor_lookup(title, api)
-
-        # Map the original title to the local title for later use
+        # Map the original title to the local title; the lookup below stores under that name
         self.title_mapping[title] = local_title
+
+        self._add_to_titles_pending_contributor_lookup(title, api)
 
     def _get_mwapi_for_path(self, path):
         urls = mwapi.guess_api_urls(path)
